@@ -1,7 +1,6 @@
 """Checker self-test (thorough tier): every stored variant of /repo with one rule instance broken
 must make the property's rules fire, every behaviour-preserving variant must leave them silent.
-Variants are applied to a scratch copy outside /repo and /verif which is removed (with its facts)
-immediately. A missed mutant is recorded as a weakness of the checker in the evidence; it never
+Variants are applied to a scratch copy outside /repo and /verif which is removed immediately. A missed mutant is recorded as a weakness of the checker in the evidence; it never
 produces a VIOLATION line (the property did not fail on /repo)."""
 import glob
 import importlib
@@ -85,9 +84,9 @@ def run(prop, repo, only=None):
                 except Exception as e:  # noqa
                     out.append({"patch": name, "kind": kind, "applied": True, "fired": None, "detail": "analysis failed: %s" % str(e)[-300:]})
             finally:
+                # the scratch copy goes at once; its facts (11 MB, keyed by content hash) stay in /verif/.cache/facts so that the
+                # other properties' self-tests reuse them (LRU-pruned by export)
                 shutil.rmtree(root, ignore_errors=True)
-                if fdir and os.path.isdir(fdir):
-                    shutil.rmtree(fdir, ignore_errors=True)
     m = [x for x in out if x["kind"] == "mutant" and x.get("applied")]
     b = [x for x in out if x["kind"] == "benign" and x.get("applied")]
     return {"selftest": {
